@@ -268,6 +268,13 @@ def place_chops(rs: Stream, geo: Dict[str, Any], opts: Dict[str, Any]) -> Dict[s
     geo = dict(geo)
     geo["chops"] = chops
     geo["meta"] = meta
+    if category == "undefined" and skip:
+        # what the user may add later, on the assembled mesh, after the first write failed
+        late = []
+        for r in sorted(skip):
+            bi, a, _ = rs.sub("late", r).pick(sorted(fams[r]))
+            late.append({"block": refblocks[bi].name, "axis": a, "sections": [{"count": rs.sub("late", r, "n").randint(2, 6)}]})
+        geo["late_chops"] = late
     return geo
 
 
@@ -569,6 +576,12 @@ def make_program(geo: Dict[str, Any], cfg_seed: int, identity: bool = False) -> 
         # the script tries to write, survives whatever happens, and simply writes again (same Mesh,
         # nothing changed): the verdict of the second attempt must be the verdict of the model
         ops.append({"op": "try_write", "path": DICT_PATH, "debug": VTK_PATH})
+        if geo.get("late_fix"):
+            # ... after correcting the model in place: the missing chops go to the blocks of the assembled mesh
+            for ch in geo["late_chops"]:
+                axis, flipped = hexref.map_axis(rots[ch["block"]], ch["axis"])
+                for s_ in ch["sections"]:
+                    ops.append({"op": "chop", "target": ch["block"], "axis": axis, "args": dict(s_), "late": True})
     ops.append({"op": "write", "path": DICT_PATH, "debug": VTK_PATH})
     rewrite = geo.get("rewrite")
     if rewrite is not None:
